@@ -11,6 +11,7 @@ from gen import hx
 from checks import register, log
 
 IMPL, MODEL = 'sjh_ptr', 'sjdriver_ptr'
+PO = [False]                # the configuration under test keeps insertion order (preserve_order): set by run_c18 per configuration
 MARK = ('s', b'MARK')
 
 # ------------------------------------------------------------------ values (python side) and their canonical text
@@ -73,6 +74,8 @@ def rand_value(rng, depth):
         return ('a', [rand_value(rng, depth - 1 if n < 6 else 0) for _ in range(n)])
     n = rng.choice([0, 1, 2, 3, 3, 4, 5, 8])
     ks = sorted(set(rng.choice(KEYS) for _ in range(n)))
+    if PO[0]:
+        rng.shuffle(ks)          # IndexMap keeps whatever order the entries were inserted in
     return ('o', [(k, rand_value(rng, depth - 1)) for k in ks])
 
 def nodes(v, path=()):
@@ -232,7 +235,7 @@ FIXED = ('o', sorted([(b'', ('a', [('u', 0), ('o', [(b'', ('t',)), (b'a', ('u', 
 
 # ------------------------------------------------------------------ judges
 def viol(what, line, expected, actual, **kw):
-    d = {'what': what, 'cfg': 'def', 'line': line, 'expected': expected, 'actual': actual, 'shrinkable': False}
+    d = {'what': what, 'cfg': 'po' if PO[0] else 'def', 'line': line, 'expected': expected, 'actual': actual, 'shrinkable': False}
     d.update(kw)
     return d
 
@@ -245,7 +248,7 @@ def judge_pointer_cases(ctx, cfg, cases):
         for op in ('pt', 'pm', 'tk'):
             lines.append('%s %s %s' % (op, sv, hx(p)))
             meta.append((op, val, p))
-    io, mo = ctx.both(cfg, lines, impl_name=IMPL, model_name=MODEL)
+    io, mo = ctx.both(cfg, lines, impl_name=IMPL, model_name=(MODEL + '_po' if PO[0] else MODEL))
     for ln, (op, val, p), a, m in zip(lines, meta, io, mo):
         path = rfc_path(val, p)
         if path is None:
@@ -391,7 +394,7 @@ def ref_index_ops(val, op, arg):
     if val[0] == 'n':
         return 'n ' + show(('o', [(k, MARK)]))
     if val[0] == 'o':
-        return 'n ' + show(('o', sorted(val[1] + [(k, MARK)], key=lambda kv: kv[0])))
+        return 'n ' + show(('o', (val[1] + [(k, MARK)]) if PO[0] else sorted(val[1] + [(k, MARK)], key=lambda kv: kv[0])))
     return 'PANIC'
 
 def part_index(ctx, cfg):
@@ -420,7 +423,7 @@ def part_index(ctx, cfg):
                     if gen.is_utf8(k):
                         lines.append('%s %s %s' % (op, sv, hx(k)))
                         meta.append((op, val, k))
-    io, mo = ctx.both(cfg, lines, impl_name=IMPL, model_name=MODEL)
+    io, mo = ctx.both(cfg, lines, impl_name=IMPL, model_name=(MODEL + '_po' if PO[0] else MODEL))
     for ln, (op, val, arg), a, m in zip(lines, meta, io, mo):
         ctx.count('index:' + op)
         want = ref_index_ops(val, op, arg)
@@ -540,7 +543,7 @@ def part_eq(ctx, cfg):
             add(val, 'bool', c)
         for s in [b'', b'1', b'true', b'null', b'MARK'] + ([val[1], val[1] + b'x', val[1][:-1]] if val[0] == 's' else []):
             add(val, 'str', hx(s))
-    io, mo = ctx.both(cfg, lines, impl_name=IMPL, model_name=MODEL)
+    io, mo = ctx.both(cfg, lines, impl_name=IMPL, model_name=(MODEL + '_po' if PO[0] else MODEL))
     for ln, (val, ty, cmp), a, m in zip(lines, meta, io, mo):
         code, exact = ref_eq(val, ty, cmp)
         want = 't' if code else 'f'
@@ -704,11 +707,11 @@ NEGATIVE = [('[1,,2]', '[Eu1;,,Eu2;]'), ('[1 2]', '[Eu1;Eu2;]'), ('{,}', '{,}'),
 
 MACRO_DIR = os.path.join(engine.CACHE, 'ptrmacro')
 
-def build_macro_project(cases, negatives):
+def build_macro_project(cases, negatives, po=False):
     os.makedirs(os.path.join(MACRO_DIR, 'src', 'bin'), exist_ok=True)
     with open(os.path.join(MACRO_DIR, 'Cargo.toml'), 'w') as f:
         f.write('[package]\nname = "ptrmacro"\nversion = "0.0.0"\nedition = "2021"\npublish = false\n\n[workspace]\n\n[dependencies]\n'
-                'serde_json = { path = "%s" }\n\n[profile.dev]\nopt-level = 0\ndebug = false\n' % engine.REPO)
+                'serde_json = { path = "%s"%s }\n\n[profile.dev]\nopt-level = 0\ndebug = false\n' % (engine.REPO, ', features = ["preserve_order"]' if po else ''))
     shutil.copy(os.path.join(engine.REPO if os.path.exists(os.path.join(engine.REPO, 'Cargo.lock')) else '/repo', 'Cargo.lock'), os.path.join(MACRO_DIR, 'Cargo.lock'))
     for fn in os.listdir(os.path.join(MACRO_DIR, 'src', 'bin')):
         os.remove(os.path.join(MACRO_DIR, 'src', 'bin', fn))
@@ -731,7 +734,7 @@ def build_macro_project(cases, negatives):
     for i, (r, _) in enumerate(negatives):
         with open(os.path.join(MACRO_DIR, 'src', 'bin', 'neg%d.rs' % i), 'w') as f:
             f.write('#![allow(warnings)]\nfn main() { let v: serde_json::Value = serde_json::json!(%s); println!("{}", v); }\n' % r)
-    tdir = os.path.join(MACRO_DIR, 'target')
+    tdir = os.path.join(MACRO_DIR, 'target-po' if po else 'target')
     for i in range(len(negatives) + 40):
         p = os.path.join(tdir, 'debug', 'neg%d' % i)
         if os.path.exists(p):
@@ -751,8 +754,10 @@ def part_macro(ctx, cfg):
         if len(t['rust']) < 1500:
             cases.append(t)
     negs = NEGATIVE[:12] if ctx.tier == 'quick' else NEGATIVE
+    if PO[0]:
+        negs = NEGATIVE[:3]          # what does not compile does not depend on the feature: a token few under preserve_order
     with engine.Lock('ptrmacro'):
-        tdir, out = build_macro_project(cases, negs)
+        tdir, out = build_macro_project(cases, negs, PO[0])
         posbin = os.path.join(tdir, 'debug', 'pos')
         if not os.path.exists(posbin):
             blocks = re.split(r'\n(?=error)', out)
@@ -775,7 +780,7 @@ def part_macro(ctx, cfg):
     if p.returncode != 0:
         ctx.violations.append(viol('macro-program-crashed', 'generated json! program', 'exit 0', 'rc=%d %s' % (p.returncode, p.stderr.decode('utf-8', 'replace')[-300:])))
     lines = ['jm ' + c['toks'] for c in cases] + ['jm ' + t for _, t in negs]
-    mo = ctx.model(lines, name=MODEL)
+    mo = ctx.model(lines, name=(MODEL + '_po' if PO[0] else MODEL))
     ctx.evaluations += len(cases) + len(negs)
     for i, c in enumerate(cases):
         a = got.get(i)
@@ -806,6 +811,7 @@ def run_c18(ctx):
                 'duplicate keys) compared with from_str of the equivalent text and with the macro model, malformed token trees compiled one by one and required to fail; '
                 'non-trivial = lookups that select a node below the root / probes that hit / comparisons that are true / macro cases that agree')
     for cfg in ctx.cfgs:
+        PO[0] = 'preserve_order' in engine.CONFIGS[cfg][0]
         part_pointer(ctx, cfg)
         part_index(ctx, cfg)
         part_eq(ctx, cfg)
@@ -815,4 +821,4 @@ PTR_TB = ['modelled, not verified: std str::replace / str::split / usize::from_s
           'json!: rustc\'s macro_rules matcher and `$e:expr` fragment parser are abstracted (an expression is one token of the model); tied by compiling generated programs',
           'a &mut Value is modelled as the path of the addressed node; tied by writing a marker through the real reference and printing the whole value']
 
-register('C18', cfgs={'quick': ['def'], 'thorough': ['def']}, run=run_c18, judge=judge_c18, extended=run_c18, trusted_base=PTR_TB)
+register('C18', cfgs={'quick': ['def', 'po'], 'thorough': ['def', 'po']}, run=run_c18, judge=judge_c18, extended=run_c18, trusted_base=PTR_TB)
